@@ -25,6 +25,11 @@ func (l *nodeCheckerListConstructor) buildList(node schema.Node) {
 	if constr != nil {
 		names := constr.(*constraint.TypesList).Names()
 		l.appendTypeValidators(names)
+		// Like the validator does: "nullable" next to a list of types admits
+		// null besides what the types admit.
+		if node.Constraint(constraint.NullableConstraintType) != nil {
+			l.list = append(l.list, nullChecker{})
+		}
 	} else {
 		l.appendNodeValidators(node)
 	}
@@ -48,10 +53,22 @@ func (l *nodeCheckerListConstructor) appendNodeValidators(node schema.Node) {
 		l.list = make([]nodeChecker, 0, 1) // optimizing memory allocation
 	}
 
-	c, err := newNodeChecker(node)
-	if err != nil {
-		panic(err)
+	// Like the validator does: a node of type "any" admits every value, and a
+	// nullable object or array admits null next to its own kind.
+	if node.Constraint(constraint.AnyConstraintType) != nil {
+		l.list = append(l.list, anyChecker{})
+	} else {
+		c, err := newNodeChecker(node)
+		if err != nil {
+			panic(err)
+		}
+		l.list = append(l.list, c)
 	}
 
-	l.list = append(l.list, c)
+	switch node.(type) {
+	case *schema.ObjectNode, *schema.ArrayNode:
+		if node.Constraint(constraint.NullableConstraintType) != nil {
+			l.list = append(l.list, nullChecker{})
+		}
+	}
 }
